@@ -164,6 +164,14 @@ def keyword_identifier_family():
 def string_argument_family():
     vals = ["", "plain", "with \"quotes\"", "back\\slash", "\\\\", "\\\"", "]", "[[", "]]", "// x", "/* y */", "a,b", "(", ")", "{}",
             "é中文\U0001F600", "tab\there", "'", "#if A", "trailing\\", "\"", "x\"y\"z", "  spaces  "]
+    # every ordered sequence of up to 3 pieces from {plain, escaped quote, escaped backslash, 2-, 3- and 4-byte character}: an
+    # escape before / after / between multi-byte characters
+    pieces = ["ab", "\"", "\\", "\u00e9", "\u20ac", "\U0001F600"]
+    for n in (2, 3):
+        for combo in itertools.product(pieces, repeat=n):
+            v = "".join(combo)
+            if v not in vals:
+                vals.append(v)
     for v in vals:
         yield v, Program([File("M", [Struct("S", [Field("f", TypeExpr("prim", "bool", attrs=[Attr("p::q", [v, "k"])]))],
                                             attrs=[Attr("a::b", [v]), Attr("c::d", ["x", v, v])])],
